@@ -4,11 +4,12 @@
    scenario; the scenario is then pushed through the real talker and listener and the recorded
    run is validated by TunnelTrace.  (Model level: a reference talker that encodes with the
    normative layout makes the machine transparent - checked here as RefTransparent.) *)
-EXTENDS CanTunnel, CanBuild, Json, TLC
+EXTENDS CanTunnel, CanBuild, Json, TLC, FiniteSets
 CONSTANTS NPackets, Lens,
           CapSet       \* {}: enumerate; otherwise { 100 * j + len_j } = the data lengths of ONE prescribed scenario of Count frames
                        \* (packets filled up to the size limit of the example programs, where enumeration is out of reach;
-                       \* a set because TLC configuration files have no tuples)
+                       \* a set because TLC configuration files have no tuples); with NPackets > 1 the lengths repeat cyclically:
+                       \* long runs of one talker process (the 8-bit sequence number wraps after 256 packets)
 VARIABLES k
 ASSUME Buf = {1}
 
@@ -23,7 +24,7 @@ IdSeq == << [id |-> V64(291), eff |-> 1], [id |-> V64(2047), eff |-> 0], [id |->
 CapFrame(j) ==
   LET i == IdSeq[(j % 4) + 1] IN
   [id |-> SubBytes(i.id, 4, 4), eff |-> i.eff, rtr |-> IF Fd = 1 THEN 0 ELSE (j \div 4) % 2, fdf |-> Fd,
-   brs |-> IF Fd = 1 THEN j % 2 ELSE 0, esi |-> IF Fd = 1 THEN (j \div 2) % 2 ELSE 0, data |-> Data((CHOOSE e \in CapSet : e \div 100 = j) % 100, j)]
+   brs |-> IF Fd = 1 THEN j % 2 ELSE 0, esi |-> IF Fd = 1 THEN (j \div 2) % 2 ELSE 0, data |-> Data((CHOOSE e \in CapSet : e \div 100 = ((j - 1) % Cardinality(CapSet)) + 1) % 100, j % 251)]
 
 \* reference talker: the packet a conforming talker would send for the pending frames
 RECURSIVE RefAcfs(_)
@@ -44,7 +45,7 @@ GInit == Init /\ k = 0 /\ mem = << >> /\ hb = << >> /\ out = Sentinel /\ step = 
 GNext ==
   /\ UNCHANGED <<mem, hb, out, step>>
   /\ \/ k < NPackets /\ CapSet = {} /\ (\E f \in Frames : Read(f)) /\ k' = k
-     \/ k < NPackets /\ CapSet # {} /\ Len(inq) < Count /\ Read(CapFrame(Len(inq) + 1)) /\ k' = k
+     \/ k < NPackets /\ CapSet # {} /\ wire = << >> /\ Len(inq) < NPackets * Count /\ Read(CapFrame(Len(inq) + 1)) /\ k' = k
      \/ k < NPackets /\ Send(RefPacket(pending)) /\ k' = k + 1
      \/ Deliver(Head(wire), Decode(Head(wire))) /\ k' = k
 GSpec == GInit /\ [][GNext]_<<tvars, k, mem, hb, out, step>>
